@@ -72,6 +72,15 @@ def valuesGet (i : Nat) : OM Val := do
   | some v => pure v
   | none => throw "IndexError"
 
+/-- `len(self.keys)` -/
+def lenKeys : OM Nat := do return (← get).keys.length
+
+/-- `self.keys[i]` -/
+def keysGet (i : Nat) : OM (Option Key) := do
+  match (← get).keys[i]? with
+  | some k => pure k
+  | none => throw "IndexError"
+
 /-- `self.is_mapper` -/
 def isMapper : OM Bool := do return (← get).dtype = .mapper
 
